@@ -446,8 +446,39 @@ def run(c):
         audit = vlib.lean_audit("C19")
         c.report("C19:translator", "key tables of src/rime/key_table.cc could not be extracted: %s" % "; ".join(gen["problems"])[:600],
                  {"kind": "proof", "broken": "translator gen/c19_tables.py", "problems": gen["problems"]}, no_input=True)
+        # the model cannot be regenerated: search the implementation alone for a concrete event that does not round-trip
+        # (keys that certainly have names / are printable x every single modifier bit and every pair of bits; an event whose
+        # text contains a raw 0x… part is outside the named domain and is skipped)
+        found, n_eval = None, 0
+        try:
+            impl = Impl(c)
+            keys = [0x20, 0x61, 0xff0d, 0xff08, 0xff51]
+            # the modifier bits X11 names (Shift Lock Control Mod1-5 Button1-5, Super Hyper Meta, Release); other bits are
+            # outside the property's named domain
+            bits = [1 << b for b in range(13)] + [1 << 26, 1 << 27, 1 << 28, 1 << 30]
+            masks = [0] + bits + [a | b for i, a in enumerate(bits) for b in bits[i + 1:]]
+            ops = ["repr %d %d" % (k, m) for k in keys for m in masks]
+            rc1, o1, log1 = impl.run(ops)
+            texts = o1[:len(ops)]
+            rc2, o2, log2 = impl.run(["parse " + t for t in texts])
+            n_eval = len(o1) + len(o2)
+            for (k, m), t, pr in zip([(k, m) for k in keys for m in masks], texts, o2):
+                txt = unhx(t).decode("latin-1")
+                if "0x" in txt or not txt:
+                    continue
+                if pr != "ok %d %d" % (k, m):
+                    found = {"keycode": k, "mask": m, "text": txt, "parse": pr}
+                    break
+        except Exception as e:      # the fallback is a search: its own failure must not hide the broken obligation
+            found = None
+        if found:
+            c.report("C19:event-roundtrip:impl-only", "KeyEvent %d:%d is written as %r and parses back as %s (found by the "
+                     "implementation-only search after the table translator failed)" % (found["keycode"], found["mask"], found["text"], found["parse"]),
+                     {"kind": "event", "keycode": found["keycode"], "modifier": found["mask"], "detail": found,
+                      "translator_problems": gen["problems"]})
         c.cov = vlib.proof_cov(audit, "lake build RimeModel.Props.C19", vlib.STD_TRUSTED)
-        c.cov.update({"evaluations": 0, "distinct_nontrivial": 0, "rule": "translator failed; nothing run", "samples": [],
+        c.cov.update({"evaluations": n_eval, "distinct_nontrivial": 0,
+                      "rule": "translator failed; implementation-only round-trip search over 5 keys x single and paired modifier bits", "samples": [],
                       "translator": {"ok": gen["ok"], "problems": gen["problems"]}})
         return
     T = Tables(gen)
